@@ -6,7 +6,8 @@ Exit raised at the k-th statement boundary (what closing the window does), suspe
 file, closed, and resumed in a helper process that never saw the original session; output
 before + after, final variables, sandbox files, screen characters, pixels and cursor must equal
 run (a).  Tamper monitor: every byte of small state files altered (xor 1, 0x80, 0xff) must make
-load_session raise.
+load_session raise (the 24 header bytes: every other value).  Subjects are generated programs and the
+programs of the repository's own corpus (tests/basic) whose options the sandbox can reproduce.
 """
 import io
 import json
@@ -30,10 +31,12 @@ META = {
         'is used as interruption point: Exit is raised there, the session is suspended, closed and resumed in another '
         'process; everything observable (output, variables, files, screen text, pixels, cursor) is compared with the '
         'uninterrupted run. State-file integrity: every byte of a small state file is altered in three ways and the load '
-        'must fail.'),
+        'must fail (header bytes: all 255 other values). The same differential run is made for the programs of the '
+        "repository's own test corpus (a seed-dependent slice in quick, all eligible ones in thorough)."),
     'level_note': ('Programs are generated from a fixed block grammar (loops, GOSUB, ON ERROR/RESUME, strings, arrays, DATA, '
                    'DEF FN, RND, sequential and random files, text and graphics output); INPUT, sound and time-dependent '
-                   'statements are not generated. Interruption inside a statement (during wait()) is not explored.'),
+                   'statements are not generated; corpus programs that read the clock, poll the keyboard, SHELL or use ENVIRON are '
+                   'skipped and counted. Interruption inside a statement (during wait()) is not explored.'),
     'rule': ('case = (program, boundary k); distinct by program text and k; non-trivial = the interruption hit while the '
              'program was running (not after its end) and the resumed session produced a final observation'),
     'assumptions': ['the helper process shares only the file system with the suspending process'],
@@ -185,6 +188,11 @@ def plan(tier, seed):
     for i in range(14 if q else 64):
         shards.append({'kind': 'resume', 'programs': 3 if q else 12, 'part': i, 'maxk': 60 if q else 150})
     shards.append({'kind': 'tamper', 'files': 1 if q else 4, 'part': 0})
+    # programs of the repository's own corpus: a seed-dependent slice in quick, all of them in thorough
+    nparts = 6 if q else 32
+    for i in range(nparts):
+        shards.append({'kind': 'corpus', 'part': i, 'parts': nparts, 'programs': 5 if q else 10 ** 6,
+                       'maxk': 12 if q else 60})
     return shards
 
 
@@ -223,10 +231,67 @@ def _files(mount):
     return out
 
 
-def _start(root, lines):
+def _start(root, prog):
+    """prog: list of program lines, or {'corpus': 'suite/NAME'} for a program of the repository's test corpus."""
+    if isinstance(prog, dict):
+        src, opts, name = corpus_entry(prog['corpus'])
+        box = harness.Box(root=root, budget=10 ** 9, wait_budget=50, **opts)
+        for n in os.listdir(src):
+            if os.path.isfile(os.path.join(src, n)) and n != 'PCBASIC.INI':
+                shutil.copy(os.path.join(src, n), os.path.join(box.mount, n))
+        box.ex(b'LOAD "%s"' % name.encode('latin-1'))
+        return box
     box = harness.Box(root=root, budget=10 ** 9, wait_budget=50)
-    box.enter(lines)
+    box.enter(prog)
     return box
+
+
+# ---- programs of the repository's own corpus (tests/basic/<suite>/<NAME>/) ------------------------------
+
+_INI_OK = {'font', 'run', 'quit', 'soft-linefeed', 'video', 'syntax', 'video-memory', 'reserved-memory',
+           'text-width', 'monitor'}
+# what would make the two runs differ for reasons outside the property: wall-clock readings (the resumed
+# process has its own clock), keyboard polling, other processes
+_SKIP_WORDS = (b'TIMER', b'TIME$', b'DATE$', b'RANDOMIZE', b'INKEY$', b'SHELL', b'ENVIRON', b'IOCTL')
+
+
+def corpus_entry(rel):
+    src = os.path.join(harness.REPO, 'tests', 'basic', rel)
+    opts, name = {}, None
+    with open(os.path.join(src, 'PCBASIC.INI'), 'rb') as f:
+        for line in f.read().decode('latin-1').splitlines():
+            line = line.strip()
+            if not line or line[0] in '#;[' or '=' not in line:
+                continue
+            k, v = [x.strip() for x in line.split('=', 1)]
+            if k not in _INI_OK:
+                return src, None, None
+            if k == 'run':
+                name = v
+            elif k == 'soft-linefeed':
+                opts['soft_linefeed'] = v.lower() == 'true'
+            elif k in ('video', 'syntax', 'monitor'):
+                opts[k] = v
+            elif k in ('video-memory', 'reserved-memory', 'text-width'):
+                opts[k.replace('-', '_')] = int(v)
+    return src, opts, name
+
+
+def corpus_programs():
+    base = os.path.join(harness.REPO, 'tests', 'basic')
+    out = []
+    for suite in sorted(os.listdir(base)):
+        if not os.path.isdir(os.path.join(base, suite)):
+            continue
+        for name in sorted(os.listdir(os.path.join(base, suite))):
+            rel = '%s/%s' % (suite, name)
+            if not os.path.exists(os.path.join(base, rel, 'PCBASIC.INI')):
+                continue
+            src, opts, prog = corpus_entry(rel)
+            if opts is None or not prog or not os.path.exists(os.path.join(src, prog)):
+                continue
+            out.append(rel)
+    return out
 
 
 def _run_to(box, exit_at, budget):
@@ -249,9 +314,21 @@ def _reference(lines, budget):
     root = tempfile.mkdtemp(prefix='vf40r_')
     try:
         box = _start(root, lines)
+        names = NAMES
+        if isinstance(lines, dict):
+            # the listing is taken in a session of its own: it must not be on the reference run's screen
+            listing = box.ex(b'LIST').upper()
+            box.close()
+            if any(w in listing for w in _SKIP_WORDS):
+                return None, 0, 'skip'
+            shutil.rmtree(root, ignore_errors=True)
+            box = _start(root, lines)
         out, exited = _run_to(box, None, budget)
         nb = box.stepper.boundaries
-        obs = c40_helper.observe(box.s, NAMES)
+        if isinstance(lines, dict):
+            names = c40_helper.all_names(box.s)
+        obs = c40_helper.observe(box.s, names)
+        obs['names'] = names
         brk = box.stepper.break_hit
         box.close()
         obs['files'] = _files(os.path.join(root, 'c'))
@@ -261,7 +338,7 @@ def _reference(lines, budget):
         shutil.rmtree(root, ignore_errors=True)
 
 
-def _interrupted(helper, lines, k, budget, res, case):
+def _interrupted(helper, lines, k, budget, res, case, names=NAMES):
     root = tempfile.mkdtemp(prefix='vf40i_')
     try:
         box = _start(root, lines)
@@ -272,7 +349,7 @@ def _interrupted(helper, lines, k, budget, res, case):
         state = os.path.join(root, 'state.bin')
         box.s.suspend(state)
         box.close()
-        rep = helper.ask({'op': 'resume', 'state': state, 'budget': budget, 'names': NAMES})
+        rep = helper.ask({'op': 'resume', 'state': state, 'budget': budget, 'names': names})
         if 'internal' in rep:
             res.violation(rep['internal'], 'resume raised: %s' % rep.get('tb', ''), case)
             return None
@@ -305,9 +382,13 @@ def _compare(ref, got, res, case, k):
 
 def _check_program(helper, lines, rng, res, maxk, budget=4000):
     ref, nb, brk = _reference(lines, budget)
+    if brk == 'skip':
+        res.count('corpus_programs_skipped_for_clock_or_keyboard_use')
+        return
     if brk:
         res.count('reference_hit_budget')
         return
+    key = tuple(lines) if not isinstance(lines, dict) else lines['corpus']
     ks = list(range(2, nb + 1))
     if len(ks) > maxk:
         ks = sorted(rng.sample(ks, maxk))
@@ -317,15 +398,17 @@ def _check_program(helper, lines, rng, res, maxk, budget=4000):
         case = {'program': lines, 'interrupt_at_boundary': k}
         try:
             with harness.time_limit(120):
-                got = _interrupted(helper, lines, k, budget, res, case)
+                got = _interrupted(helper, lines, k, budget, res, case, ref['names'])
         except harness.CaseTimeout:
             res.count('case_timeouts')
             continue
         if got is None:
-            res.case((tuple(lines), k), nontrivial=False)
+            res.case((key, k), nontrivial=False)
             continue
-        res.case((tuple(lines), k))
+        res.case((key, k))
         res.count('resumed_mid_program')
+        if isinstance(lines, dict):
+            res.count('resumed_mid_corpus_program')
         if got.get('break'):
             res.count('resumed_hit_budget')
             continue
@@ -340,7 +423,16 @@ def run_shard(spec, res):
         return _tamper(spec, rng, res)
     helper = Helper()
     try:
-        if kind == 'directed':
+        if kind == 'corpus':
+            progs = corpus_programs()
+            rng0 = random.Random('%s:C40:corpus-order' % spec['seed'])
+            rng0.shuffle(progs)
+            mine = progs[spec['part']::spec['parts']][:spec['programs']]
+            for rel in mine:
+                res.count('corpus_programs_tried')
+                _check_program(helper, {'corpus': rel}, rng, res, spec['maxk'])
+            res.sample({'kind': 'corpus', 'programs': mine[:5]})
+        elif kind == 'directed':
             for lines in DIRECTED:
                 _check_program(helper, lines, rng, res, 150)
             res.sample({'kind': 'directed', 'program': DIRECTED[2]})
@@ -381,7 +473,8 @@ def _tamper(spec, rng, res):
                                        + rng.sample(range(64, len(data) - 64), 2500)))
             n = 0
             for pos in positions:
-                for x in (1, 0x80, 0xff):
+                # the 24 header bytes (checksum and version fields): every other value; the body: three alterations
+                for x in (range(1, 256) if pos < 24 else (1, 0x80, 0xff)):
                     b = bytearray(data)
                     b[pos] ^= x
                     with open(tpath, 'wb') as f:
@@ -398,7 +491,7 @@ def _tamper(spec, rng, res):
             res.bulk(n, n)
             if len(positions) == len(data):
                 res.count('files_tampered_exhaustively')
-        res.sample({'kind': 'tamper', 'alterations': 'every chosen byte xor 1, 0x80, 0xff'})
+        res.sample({'kind': 'tamper', 'alterations': 'header bytes 0-23: all 255 other values; every chosen body byte xor 1, 0x80, 0xff'})
     finally:
         helper.close()
         shutil.rmtree(root, ignore_errors=True)
